@@ -3,6 +3,7 @@ package main
 import (
 	"fmt"
 	"go/ast"
+	"go/constant"
 	"os"
 	"path/filepath"
 	"sort"
@@ -43,6 +44,7 @@ type Contract struct {
 	File           string
 	PkgShort       string
 	SafeOnly       bool
+	ReadsModel     bool
 	Entry          bool // inputs are adversarial modulo requires: a replayed panic is a defect of the system
 }
 
@@ -74,10 +76,16 @@ type ContractSet struct {
 	Unbound   []string
 	FlagSets  map[string]int // type key -> number of bits
 	MethodNonNil map[string]bool
+	StructFacts  []StructFact
 	ParametricFiles []string
 	TypeInvs     []*TypeInv
 	ElemsNonNil  map[string]bool // type keys whose slice elements are never nil
 	typeInvByKey map[string][]*TypeInv
+}
+
+type StructFact struct {
+	Kind, Prop, Spec, File string
+	Line             int
 }
 
 type TypeInv struct {
@@ -86,9 +94,9 @@ type TypeInv struct {
 	Clause   *Clause
 }
 
-var clauseKeywords = map[string]bool{"names": true, "iteration": true, "requires": true, "ensures": true, "invariant": true, "decreases": true, "property": true,
+var clauseKeywords = map[string]bool{"reads-model": true, "names": true, "iteration": true, "requires": true, "ensures": true, "invariant": true, "decreases": true, "property": true,
 	"pure": true, "assigns": true, "trusted": true, "noinline": true, "inline": true, "func": true, "sweep": true, "immutable": true, "spec": true,
-	"axiom": true, "flagset": true, "safeonly": true, "immutable-family": true, "method-pre": true, "entry": true, "type-invariant": true, "elems-nonnil": true, "callback-parametric": true}
+	"axiom": true, "flagset": true, "safeonly": true, "immutable-family": true, "method-pre": true, "entry": true, "type-invariant": true, "elems-nonnil": true, "callback-parametric": true, "json-hidden": true, "json-visible": true}
 
 var contractRoot = "" // directory that contract file paths are relative to (repo or mirror)
 
@@ -143,7 +151,14 @@ func (w *World) LoadContracts() error {
 			// parent@name : the closure assigned to local variable <name> in function <parent>
 			parts := strings.SplitN(k, "@", 2)
 			if parent := w.Funcs[parts[0]]; parent != nil {
-				fn = closureNamed(parent, parts[1])
+				if strings.HasPrefix(parts[1], "emits:") {
+					// parent@emits:"literal" : the unique closure nested in parent that itself prints that literal
+					if lit, err := strconv.Unquote(strings.TrimPrefix(parts[1], "emits:")); err == nil {
+						fn = closureEmitting(w, parts[0], lit)
+					}
+				} else {
+					fn = closureNamed(parent, parts[1])
+				}
 			}
 		}
 		if fn == nil {
@@ -229,8 +244,17 @@ func (w *World) parseContractFile(cs *ContractSet, file string) error {
 		switch kw {
 		case "func":
 			key := strings.TrimSpace(rest)
+			suffix := ""
+			if k := strings.Index(key, "@emits:"); k >= 0 {
+				suffix = key[k:]
+				key = key[:k]
+			}
 			if k := strings.Index(key, " "); k >= 0 {
 				key = key[:k]
+			}
+			if at := strings.Index(key, "@"); at >= 0 && suffix == "" {
+				suffix = key[at:]
+				key = key[:at]
 			}
 			if pkgShort != "" && w.Funcs[key] == nil && w.Funcs[pkgShort+"."+key] != nil {
 				key = pkgShort + "." + key
@@ -240,6 +264,7 @@ func (w *World) parseContractFile(cs *ContractSet, file string) error {
 					key = pkgShort + "." + key
 				}
 			}
+			key += suffix
 			if cs.ByKey[key] != nil {
 				cur = cs.ByKey[key]
 			} else {
@@ -340,6 +365,9 @@ func (w *World) parseContractFile(cs *ContractSet, file string) error {
 			cur.SafeOnly = true
 		case "entry":
 			cur.Entry = true
+		case "reads-model":
+			// the result depends on the arguments and on model (package dsl) objects only
+			cur.ReadsModel = true
 		case "type-invariant":
 			// type-invariant <type> <var> :: <expr>
 			k := strings.Index(rest, "::")
@@ -358,6 +386,15 @@ func (w *World) parseContractFile(cs *ContractSet, file string) error {
 			// values they are given (directly or inside the visitor object they pass around)
 			if len(fs) >= 3 && fs[1] == "file" {
 				cs.ParametricFiles = append(cs.ParametricFiles, fs[2])
+			}
+		case "json-hidden", "json-visible":
+			// json-hidden Cxx pkg.Struct.Field ...   : the field never reaches encoding/json (tag json:"-")
+			// json-visible Cxx pkg.Struct.Field=name ... : the field is marshalled under that key
+			if len(fs) < 3 {
+				return fmt.Errorf("%s:%d: %s wants a property and fields", file, rl.line, kw)
+			}
+			for _, f := range fs[2:] {
+				cs.StructFacts = append(cs.StructFacts, StructFact{Kind: kw, Prop: fs[1], Spec: f, File: file, Line: rl.line})
 			}
 		case "elems-nonnil":
 			if cs.ElemsNonNil == nil {
@@ -517,4 +554,34 @@ func closureNamed(parent *ssa.Function, name string) *ssa.Function {
 		}
 	}
 	return nil
+}
+
+func closureEmitting(w *World, parentKey, lit string) *ssa.Function {
+	var found *ssa.Function
+	for k, f := range w.Funcs {
+		if !strings.HasPrefix(k, parentKey+"$") {
+			continue
+		}
+		has := false
+		for _, b := range f.Blocks {
+			for _, ins := range b.Instrs {
+				ci, ok := ins.(ssa.CallInstruction)
+				if !ok {
+					continue
+				}
+				for _, a := range ci.Common().Args {
+					if c, ok := a.(*ssa.Const); ok && c.Value != nil && c.Value.Kind() == constant.String && constant.StringVal(c.Value) == lit {
+						has = true
+					}
+				}
+			}
+		}
+		if has {
+			if found != nil {
+				return nil // ambiguous
+			}
+			found = f
+		}
+	}
+	return found
 }
